@@ -1439,6 +1439,8 @@ func (ck *Check) attachStepTail(fn *ssa.Function) {
 		}
 	}
 	ck.terminateChunking("C18.R4")
+	// R8 every id of the fleet response reaches the attach step (decided as C17.R4)
+	ck.shareRules(checkC17, "C18.R8", "C17.R4")
 	ck.exitAfterDisposition("C18.R6")
 	ck.idListIntegrity("C18.R7")
 	// R5 (continued): no cool-down lock for capacity that did not arrive — the arming discipline of C02.R2
